@@ -269,6 +269,7 @@ class Params:
         self.mup_s = None
         self.tsbd_s = None
         self.max_seg_s = self.seg_s
+        self.loops = 0.0
         self.budget = 2
 
     def iteration_budget(self, body: bytes) -> int:
@@ -284,6 +285,9 @@ class Params:
             m = mpd.MPD(body, self.url)
             self.mup_s = float(m.mup) if m.mup is not None else None
             self.tsbd_s = float(m.tsbd) if m.tsbd is not None else None
+            if m.ast is not None and self.consts.get("ref_ticks") and self.consts.get("timescale"):
+                elapsed = self.T.timestamp() - float(m.ast)
+                self.loops = elapsed / (self.consts["ref_ticks"] / self.consts["timescale"])
             for r in m.reps:
                 t = r.template
                 if t is None:
@@ -1222,6 +1226,10 @@ def judge_accept(run, p: Params, out: Outcome) -> bool:
         sig = "accept/" + error_sig(e) + "@" + kind
         if "publishTime must be present" in e.msg:
             sig += "/" + p.case["template"]
+        if ("Decode time" in e.msg or "Based upon segment number" in e.msg) and p.loops >= 500:
+            # $Number$ addressing after hundreds of loops of a track whose own duration differs from the reference:
+            # number x @duration and the served (accumulated) decode time have drifted apart by a segment
+            sig += "/loops>=500"
         if "Sequence number error" in e.msg and p.mup_s and p.tsbd_s and p.mup_s > p.tsbd_s:
             # the refreshed manifest no longer overlaps the previous one: segments were skipped between the two
             sig += "/mup>depth"
@@ -1241,7 +1249,8 @@ def judge_accept(run, p: Params, out: Outcome) -> bool:
             out.trivial = "degenerate-depth-no-termination"
             return False
         kind = p.stream if p.stream in ("bbb", "tears") else "synthetic"
-        out.fail(f"accept/does-not-terminate/{p.mode}@{kind}/{p.case['template']}", f"{where}: {run.abort or 'not finished'} after {run.iterations} "
+        narrow = "/seg>depth/2" if (p.tsbd_s and p.max_seg_s > p.tsbd_s / 2) else ""
+        out.fail(f"accept/does-not-terminate/{p.mode}@{kind}/{p.case['template']}{narrow}", f"{where}: {run.abort or 'not finished'} after {run.iterations} "
                  f"iterations, {run.refreshes} refreshes, {len(run.fetches)} requests, slept {run.slept:.1f}s "
                  f"(minimumUpdatePeriod {p.mup_s}, timeShiftBufferDepth {p.tsbd_s}, segment {p.seg_s}s)")
         return False
